@@ -415,8 +415,8 @@ TEXT = {
           "(7ec6f07 + 5b338e6, 4fc5ee4). The downloader model abstracts the goroutines to event interleavings and MODELS Go channels "
           "and timers (not verified); its liveness statement assumes that every update offers a request to every idle peer and does "
           "not cover throttling, the 262144-hash limit, or a peer that keeps answering just in time; the replay of the scenarios "
-          "compares who is dropped and synced / stalled, not times, and four scenarios with block packs that cross requests are "
-          "replayed on the hash level only.",
+          "compares who is dropped and synced / stalled, not times, and the scenarios in which a block pack can cross a request "
+          "(five of 49 as a rule) are replayed on the hash level only.",
   "technique": "Lean 4 proof (omega/case analysis; invariant + decreasing measure for the downloader state machine; decide for the "
                "variant counterexamples) + regenerated constants and AST facts + differential correspondence over p2p.MsgPipe + "
                "scenario monitors and model replay of scripted-peer traces on a node process behind a real p2p.Server",
